@@ -54,6 +54,18 @@ pub struct Call<State, B> {
     _ph: PhantomData<State>,
 }
 
+#[cfg(hoot_verif)]
+impl<State, B: Clone> Clone for Call<State, B> {
+    fn clone(&self) -> Self {
+        Call {
+            request: self.request.clone(),
+            analyzed: self.analyzed,
+            state: self.state.clone(),
+            _ph: PhantomData,
+        }
+    }
+}
+
 impl<B> Call<(), B> {
     /// Creates a call for a [`Method`] that do not have a request body
     ///
@@ -165,6 +177,7 @@ impl<State, B> Call<State, B> {
 }
 
 #[derive(Debug, Default)]
+#[cfg_attr(hoot_verif, derive(Clone))]
 struct BodyState {
     phase: Phase,
     writer: BodyWriter,
@@ -636,6 +649,35 @@ impl fmt::Debug for Phase {
             Self::RecvResponse => write!(f, "RecvResponse"),
             Self::RecvBody => write!(f, "RecvBody"),
         }
+    }
+}
+
+
+#[cfg(hoot_verif)]
+impl<State, B> Call<State, B> {
+    /// Verification hook: dump of the complete internal state of the call.
+    pub fn verif_fingerprint(&self) -> String {
+        let s = &self.state;
+        let phase = match s.phase {
+            Phase::SendLine => "SendLine".to_string(),
+            Phase::SendHeaders(i) => format!("SendHeaders({})", i),
+            Phase::SendBody => "SendBody".to_string(),
+            Phase::RecvResponse => "RecvResponse".to_string(),
+            Phase::RecvBody => "RecvBody".to_string(),
+        };
+        format!(
+            "req[{}]|analyzed={}|phase={}|writer={:?}|reader={}|skip_check={}|stop_boundary={}",
+            self.request.verif_fingerprint(),
+            self.analyzed,
+            phase,
+            s.writer,
+            match &s.reader {
+                Some(r) => r.verif_fingerprint(),
+                None => "-".to_string(),
+            },
+            s.skip_method_body_check,
+            s.stop_on_chunk_boundary,
+        )
     }
 }
 
